@@ -37,13 +37,19 @@ REG.contract('Monitor.collate_actor_dataframes', world=MW,
 
 def _mrun_step(c):
     o, n = c.o.self, c.n.self
-    return [('C12-exactly-one-row-per-timestep', DF_ROWS(n.df.t) == DF_ROWS(o.df.t) + 1)]
+    sn = n.simulation
+    return [('C12-exactly-one-row-per-timestep', DF_ROWS(n.df.t) == DF_ROWS(o.df.t) + 1),
+            # the log is in time order (C13) and independent of where a run is paused (C11: start(k) collates once more when it
+            # returns) only if the records of a timestep are collated in that timestep
+            ('C13-C11-the-records-of-a-timestep-are-collated-in-that-timestep', z3.And(
+                unlogged(c.n, 'instrument') == 0, unlogged(c.n, 'scheduler') == 0, unlogged(c.n, 'buffer') == 0,
+                sn.instrument.events.n == 0, sn.scheduler.events.n == 0, sn.buffer.events.n == 0))]
 
 
 REG.contract('Monitor.run', world=MW, yields={0: lambda c: [('C12-one-step-wait', c.n['_ydelay'].t == 1)]}, step=_mrun_step,
              modifies=['self.df', 'self.events', 'self.simulation.instrument.events', 'self.simulation.scheduler.events',
                        'self.simulation.buffer.events', 'ghost:unlogged_instrument', 'ghost:unlogged_scheduler', 'ghost:unlogged_buffer'],
-             props=['C12', 'C13'])
+             props=['C12', 'C13', 'C11'])
 
 
 # ---- Simulation ----------------------------------------------------------------------------------------------------------------
